@@ -53,7 +53,7 @@ WORKERS = 8
 QUICK_PROBES = 110            # sampled probes in the quick tier (plus the sentinels); thorough runs all of them
 QUICK_PROBE_VECTORS = 4
 QUICK_PROGRAMS = 16
-THOROUGH_PROGRAMS = 250
+THOROUGH_PROGRAMS = 200
 THOROUGH_PROBE_VECTORS = 10
 FAMILIES = ("bin:", "type-of:", "compound:", "compound-mem:", "cast:", "conv-", "index:", "unary:", "ptr:param:", "ptr:var:")
 # probes that are always run: they decide which construct classes the random programs avoid
@@ -406,13 +406,29 @@ def gcc_outputs(it, wd, vec_idx=None):
         r = subprocess.run(["gcc", "-O0", "-w", "-fwrapv", "-o", exe, c], capture_output=True, text=True, timeout=120)
         if r.returncode:
             return None
-        outs = {}
-        for k in (range(len(it["vecs"])) if vec_idx is None else sorted(vec_idx)):
+        want = list(range(len(it["vecs"]))) if vec_idx is None else sorted(vec_idx)
+
+        def run(ks):
             try:
-                p = subprocess.run([exe, str(k)], capture_output=True, text=True, timeout=10)
-                outs[k] = (p.returncode, p.stdout.splitlines())
+                p = subprocess.run([exe] + [str(k) for k in ks], capture_output=True, text=True, timeout=10 + len(ks))
             except subprocess.TimeoutExpired:
-                outs[k] = (-1, [])
+                return -1, {}
+            got, cur = {}, None
+            for ln in p.stdout.splitlines():
+                if ln.startswith("K "):
+                    cur = int(ln[2:])
+                    got[cur] = []
+                elif cur is not None:
+                    got[cur].append(ln)
+            return p.returncode, got
+
+        rc, got = run(want)                 # one process for all vectors; one per vector if that one did not end normally
+        if rc == 0 and all(k in got for k in want):
+            return {k: (0, got[k]) for k in want}
+        outs = {}
+        for k in want:
+            rc, got = run([k])
+            outs[k] = (rc, got.get(k, []))
         return outs
     except (OSError, subprocess.TimeoutExpired):
         return None
